@@ -162,6 +162,28 @@ def single_exit(stmts, rname):
     return rec(list(stmts))
 
 
+def _own_nodes(fn):
+    """nodes of fn's own scope; nested function / class definitions are yielded but not entered"""
+    todo = list(reversed(list(ast.iter_child_nodes(fn))))
+    while todo:
+        n = todo.pop()
+        yield n
+        if isinstance(n, A.FUNC_TYPES + (ast.ClassDef, ast.Lambda)):
+            continue
+        todo.extend(reversed(list(ast.iter_child_nodes(n))))
+
+
+def _is_partial(v):
+    return isinstance(v, ast.Call) and (dotted(v.func) or "") in ("partial", "functools.partial") and len(v.args) >= 1
+
+
+def _apply_partial(call, pcall):
+    """name(x, k=v) with name = partial(g, a, kw=w)  ->  g(a, x, kw=w, k=v)   (call-site keywords override the captured ones)"""
+    over = {k.arg for k in call.keywords if k.arg}
+    kws = [ast.keyword(arg=k.arg, value=A.clone(k.value)) for k in pcall.keywords if k.arg not in over] + list(call.keywords)
+    return ast.copy_location(ast.Call(func=A.clone(pcall.args[0]), args=[A.clone(a) for a in pcall.args[1:]] + list(call.args), keywords=kws), call)
+
+
 def _returns_only_last(body):
     rets = [n for s in body for n in A.walk_local(s) if isinstance(n, ast.Return)]
     if not rets:
@@ -175,6 +197,9 @@ class Inliner:
         self.inv = inventory()
         self.counter = 0
         self.used = {}
+        self.local = {}
+        self.absorbed_local = set()
+        self._mod_partials = {}
         # helper table: name -> [(mod, qual, fn)] for functions not in the inventory
         self.helpers = {}
         for mn, m in prog.modules.items():
@@ -186,8 +211,115 @@ class Inliner:
                 if (mn, q) not in self.inv and len(lst) == 1 and "<locals>" not in q and plain and not dunder:
                     self.helpers.setdefault(q.split(".")[-1], []).append((mn, q, lst[0]))
 
+    def module_partials(self, mn):
+        if mn not in self._mod_partials:
+            out = {}
+            m = self.prog.modules[mn]
+            cnt = {}
+            for st in m.tree.body:
+                if isinstance(st, ast.Assign):
+                    for t in st.targets:
+                        if isinstance(t, ast.Name):
+                            cnt[t.id] = cnt.get(t.id, 0) + 1
+            for st in m.tree.body:
+                if isinstance(st, ast.Assign) and len(st.targets) == 1 and isinstance(st.targets[0], ast.Name) and _is_partial(st.value) and cnt.get(st.targets[0].id) == 1 \
+                        and not any(isinstance(x, (ast.Starred, ast.Lambda, ast.Call)) for a in list(st.value.args[1:]) + [k.value for k in st.value.keywords] for x in ast.walk(a)) \
+                        and all(k.arg for k in st.value.keywords):
+                    out[st.targets[0].id] = st.value
+            self._mod_partials[mn] = out
+        return self._mod_partials[mn]
+
     def any_helpers(self):
-        return bool(self.helpers)
+        return True   # local callables (closures, lambdas, partial objects) can occur in any function
+
+    # ---- local callables: nested defs, named lambdas and functools.partial objects that are only ever called
+    def _local_callables(self, fn, outer_q=None):
+        """{name: FunctionDef} for nested functions / named lambdas of ``fn`` that are defined once, never rebound, used in call position only, take
+        constant defaults and neither yield nor declare nonlocal / global names.  A closure reads its free variables when it is CALLED, so replacing the
+        call by the body (parameters bound, locals renamed apart) is exact."""
+        defs = {}
+        stores = {}
+        for n in _own_nodes(fn):
+            if isinstance(n, ast.FunctionDef) and n is not fn:
+                defs.setdefault(n.name, []).append(n)
+            elif isinstance(n, ast.Name) and isinstance(n.ctx, (ast.Store, ast.Del)):
+                stores[n.id] = stores.get(n.id, 0) + 1
+        for n in A.walk_local(fn):
+            if isinstance(n, ast.Assign) and len(n.targets) == 1 and isinstance(n.targets[0], ast.Name) and isinstance(n.value, ast.Lambda):
+                lam = n.value
+                f = ast.FunctionDef(name=n.targets[0].id, args=lam.args, body=[ast.Return(value=lam.body)], decorator_list=[], returns=None, type_comment=None, lineno=n.lineno, col_offset=n.col_offset)
+                ast.fix_missing_locations(f)
+                f._from_stmt = n
+                defs.setdefault(f.name, []).append(f)
+        out = {}
+        outer_q = outer_q or A.qualname(fn)
+        for name, lst in defs.items():
+            if len(lst) != 1:
+                continue
+            f = lst[0]
+            f._qualname = outer_q + "." + name
+            n_store = stores.get(name, 0)
+            if n_store != (1 if hasattr(f, "_from_stmt") else 0) or name in A.param_names(fn):
+                continue
+            if f.decorator_list:
+                continue
+            if any(not isinstance(d, ast.Constant) for d in list(f.args.defaults) + [d for d in f.args.kw_defaults if d is not None]):
+                continue
+            bad = False
+            for x in ast.walk(f):
+                if isinstance(x, (ast.Yield, ast.YieldFrom, ast.Nonlocal, ast.Global, ast.Await)):
+                    bad = True
+                if isinstance(x, ast.Name) and x.id == name and x is not f:
+                    bad = True   # recursive
+            # every use in the enclosing function is a call
+            for x in ast.walk(fn):
+                if isinstance(x, ast.Name) and x.id == name and isinstance(x.ctx, ast.Load):
+                    par = getattr(x, "_parent", None)
+                    if not (isinstance(par, ast.Call) and par.func is x):
+                        bad = True
+            if not bad:
+                out[name] = f
+        return out
+
+    def _local_partials(self, fn):
+        """{name: partial(...) call} for `name = partial(g, ...)` bound once in ``fn``, only ever called, whose captured arguments are names that are never
+        re-bound (partial captures values when it is created)."""
+        stores = {}
+        for n in A.walk_local(fn):
+            if isinstance(n, ast.Name) and isinstance(n.ctx, (ast.Store, ast.Del)):
+                stores[n.id] = stores.get(n.id, 0) + 1
+        params = set(A.param_names(fn))
+        out = {}
+        for n in A.walk_local(fn):
+            if isinstance(n, ast.Assign) and len(n.targets) == 1 and isinstance(n.targets[0], ast.Name) and _is_partial(n.value):
+                name = n.targets[0].id
+                if stores.get(name, 0) != 1 or name in params:
+                    continue
+                ok = not any(isinstance(a_, (ast.For, ast.While, ast.AsyncFor)) for a_ in A.ancestors(n) if not isinstance(a_, A.FUNC_TYPES)) or True
+                in_loop = False
+                for a_ in A.ancestors(n):
+                    if isinstance(a_, A.FUNC_TYPES):
+                        break
+                    if isinstance(a_, (ast.For, ast.While, ast.AsyncFor)):
+                        in_loop = True
+                captured = {x.id for x in ast.walk(n.value) if isinstance(x, ast.Name) and isinstance(x.ctx, ast.Load)}
+                # partial captures values when it is created: nothing it captured may be re-bound afterwards
+                for x in A.walk_local(fn):
+                    if isinstance(x, ast.Name) and isinstance(x.ctx, (ast.Store, ast.Del)) and x.id in captured and (in_loop or (getattr(x, "lineno", 0), getattr(x, "col_offset", 0)) > (n.lineno, n.col_offset)):
+                        ok = False
+                for x in ast.walk(n.value):
+                    if isinstance(x, (ast.Starred, ast.Lambda)):
+                        ok = False
+                if any(k.arg is None for k in n.value.keywords):
+                    ok = False
+                for x in ast.walk(fn):
+                    if isinstance(x, ast.Name) and x.id == name and isinstance(x.ctx, ast.Load):
+                        par = getattr(x, "_parent", None)
+                        if not (isinstance(par, ast.Call) and par.func is x):
+                            ok = False
+                if ok:
+                    out[name] = (n.value, n)
+        return out
 
     # ---- resolving a call to a helper
     def _callee(self, call, mn, cls):
@@ -196,6 +328,9 @@ class Inliner:
         recv = None
         if isinstance(f, ast.Name):
             name = f.id
+            if name in self.local:
+                lf = self.local[name]
+                return (mn, A.qualname(lf), lf), None
         elif isinstance(f, ast.Attribute):
             name = f.attr
             recv = f.value
@@ -230,13 +365,26 @@ class Inliner:
         if any(isinstance(x, ast.Starred) for x in call.args) or any(k.arg is None for k in call.keywords):
             return None
         if len(call.args) > len(params):
-            return None
+            if not a.vararg:
+                return None
+            env[a.vararg.arg] = ast.Tuple(elts=list(call.args[len(params):]), ctx=ast.Load())
+        elif a.vararg:
+            env[a.vararg.arg] = ast.Tuple(elts=[], ctx=ast.Load())
         for p, v in zip(params, call.args):
             env[p] = v
+        extra_k, extra_v = [], []
         for k in call.keywords:
             if k.arg not in params and k.arg not in [x.arg for x in a.kwonlyargs]:
+                if not a.kwarg:
+                    return None
+                extra_k.append(ast.Constant(value=k.arg))
+                extra_v.append(k.value)
+                continue
+            if k.arg in env:
                 return None
             env[k.arg] = k.value
+        if a.kwarg:
+            env[a.kwarg.arg] = ast.Dict(keys=extra_k, values=extra_v)
         defaults = dict(zip([x.arg for x in (a.posonlyargs + a.args)][-len(a.defaults):] if a.defaults else [], a.defaults))
         defaults.update({x.arg: d for x, d in zip(a.kwonlyargs, a.kw_defaults) if d is not None})
         for p in params + [x.arg for x in a.kwonlyargs]:
@@ -264,7 +412,8 @@ class Inliner:
             if p in assigned and isinstance(v, ast.Name) and v.id in dead_after and v.id not in keep.values():
                 keep[p] = v.id
                 continue
-            if p in assigned or not isinstance(v, (ast.Name, ast.Constant)):
+            simple_display = isinstance(v, (ast.Dict, ast.Tuple)) and all(isinstance(x, (ast.Name, ast.Constant, ast.Attribute)) for x in (list(v.values) if isinstance(v, ast.Dict) else list(v.elts)))
+            if p in assigned or not (isinstance(v, (ast.Name, ast.Constant)) or simple_display):
                 # evaluate the argument once, before the callee's statements (call-by-value)
                 pre.append(ast.Assign(targets=[ast.Name(id=tag + p, ctx=ast.Store())], value=A.clone(v), lineno=getattr(fn, "lineno", 0), col_offset=0))
             else:
@@ -312,12 +461,40 @@ class Inliner:
         q = A.qualname(fn)
         cls = q.rsplit(".", 1)[0] if "." in q else None
         new = A.clone(fn)
+        _relink(new, getattr(fn, "_parent", None), getattr(fn, "_module", None))
         changed = False
+        # partial objects (module level and local): calls are re-written to calls of the wrapped function
+        parts = dict(self.module_partials(mn)) if getattr(self.prog.modules.get(mn), "tree", None) is not None else {}
+        shadow = {n.id for n in A.walk_local(new) if isinstance(n, ast.Name) and isinstance(n.ctx, ast.Store)} | set(A.param_names(new))
+        parts = {k: (v, None) for k, v in parts.items() if k not in shadow}
+        parts.update(self._local_partials(new))
+        if parts:
+            done = set()
+            for x in list(ast.walk(new)):
+                if isinstance(x, ast.Call) and isinstance(x.func, ast.Name) and x.func.id in parts:
+                    rep = _apply_partial(x, parts[x.func.id][0])
+                    x.func, x.args, x.keywords = rep.func, rep.args, rep.keywords
+                    done.add(x.func if False else None)
+                    changed = True
+            for name, (pc, st) in parts.items():
+                if st is not None:
+                    _remove_stmt(new, st)
+            ast.fix_missing_locations(new)
+            _relink(new, getattr(fn, "_parent", None), getattr(fn, "_module", None))
+        self.local = self._local_callables(new, q)
         for _ in range(depth):
             c = self._pass(new, mn, cls)
             changed = changed or c
             if not c:
                 break
+        if self.local:
+            still = {x.id for x in ast.walk(new) if isinstance(x, ast.Name) and isinstance(x.ctx, ast.Load)}
+            for name, lf in self.local.items():
+                if name not in still:
+                    _remove_stmt(new, getattr(lf, "_from_stmt", lf))
+                    self.absorbed_local.add((mn, A.qualname(lf)))
+                    changed = True
+        self.local = {}
         if not changed:
             return fn
         ast.fix_missing_locations(new)
@@ -352,7 +529,54 @@ class Inliner:
                 out.append(s)
             return out
 
+        def hoist(s):
+            """a simple statement that calls a transparent helper / local callable inside a larger expression, where the callee is not a single
+            expression: name the call result first (`__hcN = f(...)`), so that the statement-level splice applies"""
+            if not isinstance(s, (ast.Expr, ast.Assign, ast.AugAssign, ast.Return)) or s.value is None:
+                return None
+            top = s.value
+            found = []
+
+            def rec(n, cond):
+                if isinstance(n, (ast.Lambda, ast.ListComp, ast.SetComp, ast.DictComp, ast.GeneratorExp)):
+                    return
+                if isinstance(n, ast.Call) and n is not top and not cond:
+                    r = me._callee(n, mn, cls)
+                    if r is not None:
+                        (cm, cq, cfn), recv = r
+                        if A.qualname(cfn) != A.qualname(fn):
+                            env = me._bind(n, cfn, recv)
+                            if env is not None and me._expr_form(cfn, env) is None and not any(isinstance(x, (ast.Yield, ast.YieldFrom)) for x in ast.walk(cfn)):
+                                found.append(n)
+                for f_, v in ast.iter_fields(n):
+                    c2 = cond or (isinstance(n, ast.IfExp) and f_ in ("body", "orelse")) or (isinstance(n, ast.BoolOp))
+                    if isinstance(v, ast.AST):
+                        rec(v, c2)
+                    elif isinstance(v, list):
+                        for x in v:
+                            if isinstance(x, ast.AST):
+                                rec(x, c2)
+            rec(top, False)
+            if not found:
+                return None
+            n = found[0]
+            me.counter += 1
+            nm = "__hc%d" % me.counter
+            pre = ast.copy_location(ast.Assign(targets=[ast.Name(id=nm, ctx=ast.Store())], value=ast.Call(func=n.func, args=n.args, keywords=n.keywords)), s)
+            ast.copy_location(pre.value, n)
+            n.__class__ = ast.Name
+            n.__dict__.clear() if False else None
+            for k_ in ("func", "args", "keywords"):
+                if hasattr(n, k_):
+                    delattr(n, k_)
+            n.id, n.ctx = nm, ast.Load()
+            ast.fix_missing_locations(pre)
+            return [pre, s]
+
         def try_stmt(s):
+            h = hoist(s)
+            if h is not None:
+                return do_block(h)
             call = None
             kind = None
             if isinstance(s, ast.Expr) and isinstance(s.value, ast.Call):
@@ -443,6 +667,16 @@ class Inliner:
 
         fn.body = do_block(fn.body)
         return changed[0]
+
+
+def _remove_stmt(fn, st):
+    for n in ast.walk(fn):
+        for f in A.BLOCK_FIELDS:
+            sub = getattr(n, f, None)
+            if isinstance(sub, list) and any(x is st for x in sub):
+                sub[:] = [x for x in sub if x is not st] or [ast.copy_location(ast.Pass(), st)]
+                return True
+    return False
 
 
 def _relink(node, parent, module):
